@@ -121,6 +121,8 @@ def verify_function(world, cname, prop, timeout_ms=QUICK_TIMEOUT_MS, source_over
             from .world import VDict
             st.env[fn.args.kwarg.arg] = VDict([])      # verified for calls without extra keyword arguments
             ex.notes.append("**kwargs assumed empty")
+        if any(isinstance(n, ast.Yield) for n in ast.walk(fn)) and c.returns is not None:
+            st.env["__yielded__"] = ex.to_seq(VList([]), world.base_kind(c.returns)[1])
         outs = ex.exec_block(fn.body, st)
         outs.extend(ex.drain_pending())
         res.paths = len(outs)
@@ -128,6 +130,8 @@ def verify_function(world, cname, prop, timeout_ms=QUICK_TIMEOUT_MS, source_over
         for s, oc in outs:
             if oc is None:
                 oc = ("return", NONE)
+            if oc[0] == "return" and oc[1] is NONE and "__yielded__" in s.env:
+                oc = ("return", s.env["__yielded__"])
             if oc[0] == "return":
                 nret += 1
                 envp = dict(env)
